@@ -1,7 +1,8 @@
 #!/bin/bash
-# run every quick (or $1) check once; print one line per property
-cd "$(dirname "$0")/.."; tier=${1:-quick}
-for i in $(seq -w 1 20); do
-  t0=$(date +%s); out=$(./check C$i --tier $tier 2>&1); rc=$?; t1=$(date +%s)
-  echo "C$i rc=$rc $((t1-t0))s $(echo "$out" | grep -E '^(OK|VIOLATION|INCONCLUSIVE|KNOWN)' | head -2 | tr '\n' ' ' | cut -c1-200)"
+# run every quick (or $1) check once; print one line per property.  usage: run_all.sh [tier] [ids...]
+cd "$(dirname "$0")/.."; tier=${1:-quick}; shift
+ids="$@"; [ -z "$ids" ] && ids=$(for i in $(seq -w 1 20); do echo C$i; done)
+for id in $ids; do
+  t0=$(date +%s); out=$(./check $id --tier $tier 2>&1); rc=$?; t1=$(date +%s)
+  echo "$id rc=$rc $((t1-t0))s $(echo "$out" | grep -E '^(OK|VIOLATION|INCONCLUSIVE|KNOWN)' | head -2 | tr '\n' ' ' | cut -c1-200)"
 done
